@@ -75,6 +75,12 @@ def instantiations(tier, seed):
     for k, c in enumerate(hist_cfgs if tier == "thorough" else hist_cfgs[:5] + hist_cfgs[-4:]):
         for derive in ("add", "assume", "negate", "reduce"):
             out.append({"part": "history", "kind_": "cfg", "model": c, "derive": derive})
+    # configurators with an integer item and with an item fixed by its bounds (non-zero lower bounds reach the built-in solver's own bookkeeping)
+    from sx.families import V as V_, AL as AL_
+    for c in [cfg.SC(AL_(6, V_("t", 0, 5), V_("u", 2, 7), id="R", sign=1), cfg.cXor(V_("x"), V_("y"), id="X", default=["x"])),
+              cfg.SC(F.N("Any", V_("k", 1, 1), V_("a"), id="A"), cfg.cAny(V_("b"), V_("c"), id="B", default=["b"]))]:
+        for derive in ("add", "assume"):
+            out.append({"part": "history", "kind_": "cfg", "model": c, "derive": derive})
     for k, sk in enumerate(pick[:6] if tier == "quick" else pick):
         m = F.rename(sk, F.ALT_NAMES[(k + seed) % len(F.ALT_NAMES)])
         for derive in ("assume", "negate", "reduce"):
@@ -162,6 +168,16 @@ def _observe(ns, obj, leaves):
         out["select"] = [sorted((str(a), int(b)) for a, b in s[0].items()) for s in obj.select({obj.leafs()[0].id: 1}, solver=_first_feasible)]
         out["select2"] = [sorted((str(a), int(b)) for a, b in s[0].items()) for s in obj.select({obj.leafs()[0].id: -1}, {obj.leafs()[-1].id: 2}, solver=_first_feasible)]
         out["select3"] = [sorted((str(a), int(b)) for a, b in s[0].items()) for s in obj.select({}, solver=_first_feasible)]
+        # the same questions to the built-in solver (solver=None): a different code path inside select()
+        def _bs(res):
+            return [(None if s_[0] is None else sorted((str(a_), int(b_)) for a_, b_ in s_[0].items()), int(s_[1]) if s_[1] is not None else None, int(s_[2])) for s_ in res]
+        try:
+            out["select_builtin"] = _bs(obj.select({obj.leafs()[0].id: 1}))
+            out["select_builtin2"] = _bs(obj.select({obj.leafs()[-1].id: -1}, {}))
+        except Exception as e_:    # noqa
+            out["select_builtin"] = "raises %s" % type(e_).__name__
+        P = obj.ge_polyhedron
+        out["cfgpoly_after_selects"] = (np.asarray(P).astype(int).tolist(), [str(v.id) for v in P.variables], [int(v) for v in P.default_prio_vector])
     return out
 
 
